@@ -281,11 +281,13 @@ def get_recursively(d, keys, default=_sentinel):
         )
     if isinstance(keys, str):
         # here empty substrings are skipped, but this is undefined.
-        keys = [key for key in keys.split('.') if key]
+        # empty components are kept, as in str_to_dict and str_to_list
+        keys = str_to_list(keys)
     # todo: create dict_to_list and disable dict keys here?
     elif isinstance(keys, dict):
         new_keys = []
-        while keys:
+        # a key of the last level may be falsy (an empty string)
+        while keys or not isinstance(keys, dict):
             if isinstance(keys, dict) and len(keys) != 1:
                 raise LenaValueError(
                     "keys must have exactly one key at each level, "
